@@ -35,7 +35,16 @@ def _setup(env, ns, nt, labelling="first", mode="general", angle=None):
     src_idx = list(range(ns)) if labelling == "first" else list(range(nt, n))
     for i in range(n):
         is_src = i in src_idx
-        if mode == "general" or (mode == "targets" and not is_src) or (mode == "normals" and is_src):
+        if mode == "zline":
+            # two sources side by side (normal +z), targets above them whose HEIGHT is symbolic: both sources see both targets,
+            # so they compete for the nearer one and the loser must fall back on the other
+            if is_src:
+                k = src_idx.index(i)
+                pts.append([1.25 * k, 0.0, 0.0])
+            else:
+                k = [q for q in range(n) if q not in src_idx].index(i)
+                pts.append([0.5, 0.125 * (1 if k % 2 == 0 else -1) * (1 + k // 2), env.real("h%d" % k, 0.5, 15)])
+        elif mode == "general" or (mode == "targets" and not is_src) or (mode == "normals" and is_src):
             pts.append([env.real("p%d%s" % (i, a), -20, 20) for a in "xyz"])
         elif mode == "targets":
             k = src_idx.index(i)
@@ -226,7 +235,8 @@ def jobs(tier, seed):
          ("h_pairs", {"ns": 1, "nt": 2, "direction": "1to2", "labelling": "targets_first", "mode": "targets"}),
          ("h_kernel", {"ns": 1, "nt": 2, "mode": "targets"}),
          ("h_pairs", {"ns": 1, "nt": 2, "direction": "1to2", "mode": "targets", "angle": 30.0}), ("h_pairs", {"ns": 1, "nt": 2, "direction": "1to2", "mode": "targets", "angle": 3.0}),
-         ("h_kernel", {"ns": 1, "nt": 2, "mode": "targets", "angle": 20.0}), ("h_dense", {"n_lateral": 27, "angle": 20.0})]
+         ("h_kernel", {"ns": 1, "nt": 2, "mode": "targets", "angle": 20.0}), ("h_dense", {"n_lateral": 27, "angle": 20.0}),
+         ("h_pairs", {"ns": 2, "nt": 2, "direction": "1to2", "mode": "zline", "angle": 20.0}), ("h_pairs", {"ns": 2, "nt": 2, "direction": "2to1", "labelling": "targets_first", "mode": "zline", "angle": 25.0})]
     if tier == "thorough":
         j += [("h_pairs", {"ns": 2, "nt": 2, "direction": "1to2", "mode": "normals"}), ("h_kernel", {"ns": 1, "nt": 2, "mode": "normals"}),("h_pairs", {"ns": 1, "nt": 2, "direction": "1to2"}), ("h_pairs", {"ns": 2, "nt": 2, "direction": "1to2", "mode": "targets"}),("h_pairs", {"ns": 2, "nt": 2, "direction": "1to2"}), ("h_pairs", {"ns": 2, "nt": 2, "direction": "2to1", "labelling": "targets_first"}), ("h_kernel", {"ns": 2, "nt": 2})]
     return j
